@@ -369,8 +369,9 @@ func main() {
 			}
 		}
 
-		// (6) derivation trees.
+		// (6) derivation trees, and long chains with siblings at every depth.
 		enumTrees(c, sh)
+		enumSpines(c, sh)
 
 		// (7) informational.
 		if c.Shard == 0 {
